@@ -22,6 +22,7 @@ mod slots;
 mod tower;
 mod towerhist;
 mod txindex;
+mod wire;
 
 use std::path::PathBuf;
 
@@ -86,6 +87,10 @@ fn main() {
         "http" => {
             httpc::run(seed, thorough, &mut rep);
             rep.finish("tower histories driven through the real HTTP API (JSON over TCP -> warp router -> gRPC -> InternalAPI; every request and reply of the four endpoints serialised and parsed for real), interleaved with requests outside the client's repertoire in whatever state the history has reached: single-fault mutations of valid bodies (missing / retyped / odd-hex / bad-hex / empty / wrong-size / out-of-range / duplicate field, non-JSON, empty, non-object bodies, a 33-byte non-key), oversized bodies, wrong methods, unknown paths, missing Content-Length, ping, and unstructured bytes; (status, error code) compared with the model, tower dump compared before/after every refused request", false);
+        }
+        "wire" => {
+            wire::run(seed, thorough, &mut rep);
+            rep.finish("(A) the real hex / reversed-hex / status / JSON serialisers and parsers of the shared message types and the three signed to_vec layouts on boundary values (all lengths incl. empty, 0x00/0xff/ramp/random bytes, u32 at 0, 2^8, 2^16, 2^24, 2^31, 2^32-1, signature strings of length 0..300), compared line by line with the wire model printed from the generated tables, plus round trips on the real types and through the client's untagged ApiResponse<T>; (B) tower histories whose four request kinds are sent and parsed by the client plugin's own code (reqwest post_request + process_post_response) against the real HTTP API, compared with the tower model", false);
         }
         "plugin" => {
             pscen::run(seed, thorough, &mut rep);
